@@ -343,8 +343,9 @@ func (x *lruCtx) checkCoupled(t *Trace, name string, fn *ssa.Function) bool {
 	}
 	// size stores
 	updates := 0
+	consumed := map[int]bool{}
 	for i, e := range t.Events {
-		if e.Kind != EvStore || !e.Addr.isFieldAddrOf(x.size) || e.Addr.Args[0].root().Kind == KAlloc {
+		if e.Kind != EvStore || !e.Addr.isFieldAddrOf(x.size) || e.Addr.Args[0].root().Kind == KAlloc || consumed[i] {
 			continue
 		}
 		v := e.Val
@@ -407,6 +408,27 @@ func (x *lruCtx) checkCoupled(t *Trace, name string, fn *ssa.Function) bool {
 					r.counted, matched = true, true
 					break
 				}
+			}
+		}
+		// in-place update written as two steps: size -= entry.size; size += new size (with entry.size = new size)
+		if !matched && x.sized && v.Op == token.SUB && d.Kind == KInit && d.Args[0].isFieldAddrOf(x.eSize) {
+			ent := d.Args[0].Args[0]
+			for j := i + 1; j < len(t.Events) && !matched; j++ {
+				y := t.Events[j]
+				if y.Kind != EvStore || !y.Addr.isFieldAddrOf(x.size) {
+					continue
+				}
+				if y.Val.Kind == KBin && y.Val.Op == token.ADD && y.Val.Args[0].Key() == y.Old.Key() {
+					newSize := y.Val.Args[1]
+					for _, z := range t.Events {
+						if z.Kind == EvStore && z.Addr.isFieldAddrOf(x.eSize) && z.Addr.Args[0].Key() == ent.Key() && z.Val.Key() == newSize.Key() {
+							matched = true
+							consumed[j] = true
+							updates++
+						}
+					}
+				}
+				break
 			}
 		}
 		if !matched {
